@@ -453,7 +453,7 @@ pub fn generate(ctx: &mut Ctx) {
             ctx.case("prefix", &format!("p {}", vx::hex(&b[..k])));
         }
     }
-    let n = ctx.n(2500, 150_000);
+    let n = ctx.n(2500, 400_000);
     for _ in 0..n {
         let mut rng = ctx.rng.fork();
         let v = rng.pick(&valid).clone();
@@ -470,7 +470,7 @@ pub fn generate(ctx: &mut Ctx) {
         ctx.case("mutant", &format!("p {}", vx::hex(&m)));
     }
     // token soup over the filter alphabet, random bytes
-    let n = ctx.n(2500, 150_000);
+    let n = ctx.n(2500, 400_000);
     for _ in 0..n {
         let mut rng = ctx.rng.fork();
         let len = 1 + rng.below(40) as usize;
@@ -510,7 +510,7 @@ pub fn generate(ctx: &mut Ctx) {
         "( inputs? ^water @r2 ) and not a and b *== @r1",
         "^site or ^ahu and equipRef->siteRef->c",
     ];
-    let n = ctx.n(400, 20_000);
+    let n = ctx.n(400, 50_000);
     for i in 0..n {
         let mut rng = ctx.rng.fork();
         let recs = records(&mut rng);
